@@ -431,9 +431,15 @@ func NewOpLib() *OpLib {
 	// the LARGEST single-asset exit of the oracle pool that the founder (who holds most shares) can get
 	// accepted — found by bisection over dry runs of the very message on discarded branches: it comes
 	// as close to the whole reserve of the out asset as the pool allows
-	for _, od := range []string{"uusdc", "uatom"} {
+	for _, od := range []string{"uusdc", "uatom", ""} {
 		od := od
-		l.Add("exit_p1_single_"+od+"_largest_accepted_lp1", "exit", 0, func(w *World, p *BlockPlan) {
+		nm := "exit_p1_single_" + od + "_largest_accepted_lp1"
+		if od == "" {
+			// the largest ALL-ASSET exit the founder can get accepted (every guard of the after-exit hook chain
+			// included): the thinnest pool the open positions allow
+			nm = "exit_p1_all_assets_largest_accepted_lp1"
+		}
+		l.Add(nm, "exit", 0, func(w *World, p *BlockPlan) {
 			a := w.A("lp1")
 			have := w.CommittedOf(a.Addr, ammtypes.GetPoolShareDenom(1))
 			mk := func(x math.Int) *ammtypes.MsgExitPool {
